@@ -633,8 +633,18 @@ func callSSA(m *machine, caller *frame, callpos token.Pos, fn *ssa.Function, arg
 		}
 		name := originOf(fn).String()
 		if st := m.p.Stubs[name]; st != nil && (caller == nil || caller.fn != st) {
-			m.stubCalls[name]++
-			return callSSA(m, caller, callpos, st, args, nil)
+			active := true
+			if g := m.p.Guards[name]; g != nil {
+				b, ok := callSSA(m, caller, callpos, g, nil, nil).(bool)
+				if !ok {
+					panic(engineErr("stub guard of " + name + " must return a concrete bool"))
+				}
+				active = b
+			}
+			if active {
+				m.stubCalls[name]++
+				return callSSA(m, caller, callpos, st, args, nil)
+			}
 		}
 		if in := intrinsics[name]; in != nil {
 			fr := &frame{m: m, caller: caller, fn: fn, thr: m.cur}
@@ -647,7 +657,7 @@ func callSSA(m *machine, caller *frame, callpos token.Pos, fn *ssa.Function, arg
 			if pp := pkgPathOf(fn); pp != "" {
 				if m.isNoop(pp) {
 					m.noops[pp]++
-					return zeroResults(fn.Signature)
+					return noopResults(fn.Signature)
 				}
 				if strings.HasSuffix(pp, "/pkg/zzverif") {
 					if h := zzAPI[fn.Name()]; h != nil {
@@ -737,6 +747,32 @@ func (m *machine) isNoop(path string) bool {
 		}
 	}
 	return false
+}
+
+// noopResults: like zeroResults, but a *struct result is a fresh zero object
+// (a usable do-nothing logger rather than a nil pointer).
+func noopResults(sig *types.Signature) value {
+	r := sig.Results()
+	mk := func(t types.Type) value {
+		if p, ok := t.Underlying().(*types.Pointer); ok {
+			if _, ok := p.Elem().Underlying().(*types.Struct); ok {
+				cell := zero(p.Elem())
+				return &cell
+			}
+		}
+		return zero(t)
+	}
+	switch r.Len() {
+	case 0:
+		return nil
+	case 1:
+		return mk(r.At(0).Type())
+	}
+	t := make(tuple, r.Len())
+	for i := range t {
+		t[i] = mk(r.At(i).Type())
+	}
+	return t
 }
 
 func zeroResults(sig *types.Signature) value {
